@@ -63,6 +63,34 @@ theorem c06_generated_decode_never_panics (src : Bytes) : Rs.Out.shape (genDecod
   | err e => simp [toOut, Rs.Out.shape]
   | panic s => exact absurd hd (Selium.Client.c06_frame_total src s)
 
+/-- the translated encoder over the model's `Frame::{get_length, get_type, write_to_bytes}` -/
+def genEncode (f : Frame) (dst : Bytes) : Rs.Out (Unit × Bytes) :=
+  CodecFn.encode (fun f => toOut (getLength f)) getType
+    (fun f d => appendTo d (payloadBytes (writeBody f.kind) f.payload)) f dst
+
+/-- What the translated encoder does to any buffer is what the model says: it appends the model's encoding, or
+    refuses and the model refuses. -/
+theorem c05_generated_encode_is_the_model (f : Frame) (dst : Bytes) :
+    Rs.Out.shape (genEncode f dst) = Rs.Out.shape (appendTo dst (encode f)) := gen_encode_eq f dst
+
+/-- The translated encoder refuses every frame whose payload is over the limit (and writes a length prefix for
+    no such frame). -/
+theorem c05_generated_encode_limit (f : Frame) (body dst : Bytes)
+    (hb : payloadBytes (writeBody f.kind) f.payload = .ok body) (hbig : maxMessageSize < body.length) :
+    Rs.Out.shape (genEncode f dst) = .err "" := by
+  rw [c05_generated_encode_is_the_model, c05_encode_limit f body hb hbig]
+  rfl
+
+/-- Translated encoder, then translated decoder: for every sendable frame, whatever was in the write buffer before
+    and whatever follows on the wire, decoding what was appended yields the frame and leaves what followed. -/
+theorem c05_generated_encode_then_decode (f : Frame) (hs : f.sendable) (rest : Bytes) :
+    ∃ wire, Rs.Out.shape (genEncode f []) = .ok ((), wire) ∧
+      Rs.Out.shape (genDecode (wire ++ rest)) = .ok (some f, rest) := by
+  obtain ⟨wire, henc, hdec⟩ := c05_generated_decode_roundtrip f hs rest
+  refine ⟨wire, ?_, hdec⟩
+  rw [c05_generated_encode_is_the_model, henc]
+  simp [appendTo, Rs.Out.shape]
+
 /-! Non-vacuity: the generated definition computes. -/
 set_option maxRecDepth 8192 in
 example : Rs.Out.shape (genDecode [0, 0, 0, 0, 0, 0, 0, 0, 7]) = .ok (some ⟨.Ok, .none⟩, []) := by rfl
@@ -78,3 +106,6 @@ end Selium.Wire
 #print axioms Selium.Wire.c05_generated_decode_limit
 #print axioms Selium.Wire.c05_generated_decode_waits_without_consuming
 #print axioms Selium.Wire.c06_generated_decode_never_panics
+#print axioms Selium.Wire.c05_generated_encode_is_the_model
+#print axioms Selium.Wire.c05_generated_encode_limit
+#print axioms Selium.Wire.c05_generated_encode_then_decode
